@@ -608,7 +608,7 @@ func (in *Interp) exec1(s Stmt, top bool) ctl {
 
 func (in *Interp) exec2(s Stmt, top bool) ctl {
 	switch x := s.(type) {
-	case Comment:
+	case Comment, Raw:
 		return ctlNone
 	case VarDecl:
 		if len(x.Vals) == 0 {
